@@ -82,8 +82,9 @@ type Region struct {
 }
 
 type closureVal struct {
-	Fn   *ssa.Function
-	Free []*Term
+	Fn       *ssa.Function
+	Free     []*Term
+	FreeVals []*Term // values of captured cells at the time of the go/defer/call
 }
 
 type Summary struct {
